@@ -197,7 +197,7 @@ Proof.
     apply negb_false_iff, N.eqb_eq in Ep.
     destruct (stat w (c_path cl)) as [[m d]|] eqn:Es; [|exact Hi].
     destruct (cache_get _ _ m c) as [[dl h]|]; [exact Hi|].
-    destruct (c_fail cl); [exact Hi|].
+    destruct (tr_fails cl); [exact Hi|].
     destruct (T cf d) as [d'|] eqn:Et; [|exact Hi].
     cbn [snd]. unfold cache_put. constructor; [|exact Hi].
     destruct (stat_inv _ _ _ _ Es) as (i & Ei & Em & El & Ed).
@@ -208,7 +208,7 @@ Proof.
     exists d'. cbn [e_dl e_h]. subst d. auto.
   - destruct (stat w (c_path cl)) as [[m d]|] eqn:Es; [|exact Hi].
     destruct (cache_get _ _ m c) as [[dl h]|]; [exact Hi|].
-    destruct (c_fail cl); [exact Hi|].
+    destruct (raw_fails cl); [exact Hi|].
     cbn [snd]. unfold cache_put. constructor; [|exact Hi].
     destruct (stat_inv _ _ _ _ Es) as (i & Ei & Em & El & Ed).
     exists a, None, w, i. cbn [fst snd e_mt e_fl e_dl e_h]. unfold cache_key, key_id. cbn [fst snd].
@@ -218,11 +218,11 @@ Proof.
 Qed.
 
 Lemma hash_cached_same cs ws a tr c w cl :
-  stamp_determines ws -> tree_faithful cs -> Inv cs ws c -> In w ws -> In (a, tr) cs -> c_fail cl = false ->
+  stamp_determines ws -> tree_faithful cs -> Inv cs ws c -> In w ws -> In (a, tr) cs -> c_io cl = IoOk ->
   fst (hash_cached H T a tr c w cl) = hash_plain H T a tr w cl.
 Proof.
   intros Hs Ht Hi Iw Ia Hf. pose proof (origin_valid _ _ _ Hs Ht Hi) as Hv.
-  unfold hash_cached, hash_plain. rewrite Hf.
+  unfold hash_cached, hash_plain, raw_fails, tr_fails. rewrite Hf.
   destruct tr as [cf|].
   - destruct (negb (c_pos cl =? 0)) eqn:Ep; [reflexivity|].
     destruct (stat w (c_path cl)) as [[m d]|] eqn:Es; [|reflexivity].
@@ -249,7 +249,7 @@ Qed.
 Fixpoint nofail {R} (p : prog R) : Prop :=
   match p with
   | Ret _ => True
-  | Call cl k => c_fail cl = false /\ forall r, nofail (k r)
+  | Call cl k => c_io cl = IoOk /\ forall r, nofail (k r)
   end.
 
 Lemma run_cached_inv {R} cs ws a tr (p : prog R) : forall c w, Inv cs ws c -> In w ws -> In (a, tr) cs ->
